@@ -22,9 +22,11 @@
     constructors' assertions (e.g. `Stack`: `name not in part.inputs`).
   * `interpretNode` — one step of `SubstituteInterpretation.interpret`: after a node is rebuilt from
     its substituted children under the base interpretation (result `e`, any term with the same
-    meaning, with fresh names `eFresh`), which keys of σ are applied to it.  `new = true` is HEAD
-    (86bd40d: only names fresh in the ORIGINAL node), `new = false` the pinned tree (every key
-    fresh in the *rebuilt* node — which re-substitutes names introduced by substituted values).
+    meaning, with fresh names `eFresh`), which keys of σ are applied to it.  `new = false` is the pinned
+    tree (every key fresh in the *rebuilt* node — which re-substitutes names introduced by substituted
+    values), `new = true` the rule of 86bd40d (only names fresh in the ORIGINAL node … and in the rebuilt
+    one, which drops the key when the base interpretation rewrote the node), `interpretHead` is HEAD
+    (64e4215: the original node's own names that are inputs of the rebuilt node).
   * `fuseEager`, `fuseNormalize` — `f(a)(b) ↦ f(a∘b, b)`.
 
   Core-only.
@@ -192,6 +194,19 @@ def freshSubs (new : Bool) (origOwn eFresh : List Name) (σ : Subst) : Subst :=
 
 def interpretNode (new : Bool) (origOwn eFresh : List Name) (e : Term) (σ : Subst) : Term :=
   match freshSubs new origOwn eFresh σ with
+  | [] => e
+  | p :: ps => Term.subs e (p :: ps)
+
+/-- HEAD (after 64e4215): the node's own keys are `k in self.fresh and k in expr.inputs`; if all of them are fresh
+    in the rebuilt node its `eager_subs` is called, otherwise (the base interpretation REWROTE the node, e.g.
+    `eager_cat` turns a one-part Cat into `parts[0](part_name=name)`) the result is `Subs(expr, fresh_subs)`.
+    Both branches mean "substitute these keys into `e`", i.e. a `Subs` node in the model.  The 86bd40d rule
+    (`new = true` above) silently DROPPED an own key that is an ordinary input of the rewritten node. -/
+def freshSubsHead (origOwn : List Name) (e : Term) (σ : Subst) : Subst :=
+  σ.filter (fun p => decide (p.1 ∈ origOwn) && decide (p.1 ∈ e.fv))
+
+def interpretHead (origOwn : List Name) (e : Term) (σ : Subst) : Term :=
+  match freshSubsHead origOwn e σ with
   | [] => e
   | p :: ps => Term.subs e (p :: ps)
 
